@@ -57,6 +57,7 @@ from numpy import abs as np_abs
 from numpy import array
 from numpy import array_equal
 from numpy import atleast_1d
+from numpy import atleast_2d
 from numpy import bytes_
 from numpy import complex128
 from numpy import concatenate
@@ -2047,8 +2048,9 @@ class DesignSpace:
                 in its header.
         """
         design_space = cls()
-        float_data = genfromtxt(file_path, dtype="float")
-        str_data = genfromtxt(file_path, dtype="str")
+        # A file with a single row must also be read as a table.
+        float_data = atleast_2d(genfromtxt(file_path, dtype="float"))
+        str_data = atleast_2d(genfromtxt(file_path, dtype="str"))
         if header:
             start_read = 0
         else:
